@@ -102,7 +102,10 @@ def ratfun(e, allow_quotients=True):
     """(N, D) with e = N/D as rational functions.  Raises NotRational outside the fragment
     {int constants, variables, Sum, Product, Quotient, Power with literal int exponent, CSE}.
     D may be the zero polynomial (the expression is then defined nowhere)."""
-    if _is_int(e):
+    if _is_int(e) or isinstance(e, Fraction):
+        # (Fraction constants never occur in pymbolic trees: they are how the C11 stream
+        # `rewrites-collapsing` writes an exactly representable float such as 0.5 before asking
+        # for the exact normal form)
         return p_const(e), p_const(1)
     if isinstance(e, p.Variable):
         return p_var(e.name), p_const(1)
@@ -193,7 +196,7 @@ def rat_eval(e, env):
 
 
 def _rat_eval(e, env):
-    if _is_int(e):
+    if _is_int(e) or isinstance(e, Fraction):
         return Fraction(e)
     if isinstance(e, p.Variable):
         return Fraction(env[e.name])
